@@ -632,8 +632,8 @@ def run_unit(ctx: C.Ctx):
     return {
         "distribution": distribution, "outside_guard_samples": outside[:3],
         "theorems": "C01_no_silent_drop, C01_break_guard, C01_continue_guard, C01_continue_translation (all programs); C01_stmt_preserve_partial (simulation inside StmtGuard.guard_ok, modulo the shared expression semantics + SemFacts.sem_facts); C01_stmt_{range_bound,retype,promotion_reinit,loop_local_reinit}_refuted (witnesses = listed findings)",
-        "guard": "StmtGuard.guard_ok: every variable first assigned at top level of the setup part (global) or at top level of the `while True:` body before any read in that body (loop() local); later assignments keep the type label; tuple assignment only as the declaration of distinct new names at top level of the setup part; range() bound int-labelled, independent of the loop variable and of names the body assigns; loop variables fresh, unassigned, read only inside their loop; consistent expression ids.  Oracle guard (dynamic): no computed int leaves 32 bits (CPython run with every expression instrumented); a script whose deviation the extracted model itself predicts (outside guard_ok) is not blamed.  `continue` is inside the guard (any placement the parser accepts: in for / while loops, under nested ifs, in the body of the main loop where it is `return;` from loop())",
-        "unmodelled": ["helper functions, lists, try/except, device objects (firmware-vs-CPython oracle only)", "tuple swaps (temporaries) and hoisting (promotion) are in Lang.Transl and in the executable correspondence, but outside the simulation theorem's guard", "expression translation (unit C01_expr): the simulation is modulo a shared opaque expression semantics", "16-bit int of a real AVR"],
+        "guard": "StmtGuard.guard_ok: every variable first assigned at top level of the setup part (global) or at top level of the `while True:` body before any read in that body (loop() local); later assignments keep the type label; tuple assignment either as the declaration of distinct new names at top level of the setup part, or (n >= 1) to names that are all declared already with unchanged types (swap / rotation / parallel assignment through block-local temporaries `__tmp_assign_k`, at any nesting level and in the main loop; mixed new/declared tuples and tuple declarations inside the main loop stay outside); declared names are not spelled like a temporary; range() bound int-labelled, independent of the loop variable and of names the body assigns; loop variables fresh, unassigned, read only inside their loop; consistent expression ids.  Oracle guard (dynamic): no computed int leaves 32 bits (CPython run with every expression instrumented); a script whose deviation the extracted model itself predicts (outside guard_ok) is not blamed.  `continue` is inside the guard (any placement the parser accepts: in for / while loops, under nested ifs, in the body of the main loop where it is `return;` from loop())",
+        "unmodelled": ["helper functions, lists, try/except, device objects (firmware-vs-CPython oracle only)", "hoisting (promotion: a name first assigned inside an if/while/for block) is in Lang.Transl and in the executable correspondence (IR and both traces), but outside the simulation theorem's guard; the three refuted witnesses (hoisted-decl-reinit, loop-local-reinit, retype) mark where the unchanged code stops preserving behaviour", "tuples mixing new and declared names, tuple declarations inside the main loop (loop() locals initialised from temporaries)", "expression translation (unit C01_expr): the simulation is modulo a shared opaque expression semantics", "16-bit int of a real AVR"],
         "evaluations": len(progs) + len(lsrcs) + ir["ir_cases"] + ir.get("exec_cases", 0), "list_programs_by_status": dict(lstats), "programs_by_status": dict(stats), "ir_correspondence": ir,
         "distinct_nontrivial": len({s for s, r in zip(srcs, res) if r["status"] == "equal" and len(r["py"]) >= 3}),
         "samples": [srcs[0][len(progen.HEADER):], srcs[-1][len(progen.HEADER):]],
